@@ -72,10 +72,16 @@ Transports == {"http", "grpc_unary", "grpc_stream"}
 \* fwdmd:   the handler forwards what it received on its outgoing call before the traced client runs
 \*          (gRPC: NewOutgoingContext(ctx, incoming metadata); HTTP: the inbound TraceID / ParentSpanID
 \*          headers copied onto the outgoing request)
-Cfg(tr, trust, lim, sm, pct, ss, nd, d, fw, fm) ==
+\* hname:   how the NAME given to RequestIDHeaderOption is spelled: "canon" X-Correlation-Id, "lower"
+\*          x-correlation-id, "mixed" X-Correlation-ID.  HTTP header names are case-insensitive (and gRPC
+\*          metadata keys are lower-cased by grpc), so nothing in the design depends on it, nor on the
+\*          spelling the sender used (req.ridSpell).
+Spellings == {"canon", "lower", "mixed"}
+Cfg(tr, trust, lim, sm, pct, ss, nd, d, fw, fm, hn) ==
   [transport |-> tr, trust |-> trust, limit |-> lim, smode |-> sm, pct |-> pct, ssize |-> ss,
-   discards |-> nd, depth |-> d, forward |-> fw, fwdmd |-> fm]
-Req(at, l, t, p, dp, sc) == [ridAt |-> at, ridLen |-> l, trace |-> t, parent |-> p, dpath |-> dp, script |-> sc]
+   discards |-> nd, depth |-> d, forward |-> fw, fwdmd |-> fm, hname |-> hn]
+Req(at, l, sp, t, p, dp, sc) ==
+  [ridAt |-> at, ridLen |-> l, ridSpell |-> sp, trace |-> t, parent |-> p, dpath |-> dp, script |-> sc]
 
 ---------------------------------------------------------------------------
 VARIABLES cfg, reqs,          \* the case
@@ -98,28 +104,32 @@ SamplingSpace ==
   \cup {<<"adaptive", 100, s>> : s \in 1..3}
 
 \* slice "rid": every request-id option x inbound value x chain depth, one request
-RidReq(tr, at, l, t) == Req(at, l, t, FALSE, FALSE, IF tr = "http" THEN PlainScript ELSE <<>>)
+RidReq(tr, at, l, sp, t) == Req(at, l, sp, t, FALSE, FALSE, IF tr = "http" THEN PlainScript ELSE <<>>)
+CustomTrust == {"custom", "on_custom", "custom_off"}
 InitRid ==
   \E tr \in Transports : \E trust \in TrustModes(tr) : \E lim \in 0..LimitMax : \E d \in 1..MaxHops :
   \E fw \in (IF d = 1 THEN {FALSE} ELSE BOOLEAN) : \E at \in {"none", "std", "custom"} :
   \E l \in (IF at = "none" THEN {0} ELSE 0..(LimitMax + 1)) : \E t \in BOOLEAN :
-    /\ cfg = Cfg(tr, trust, lim, "default", 100, 1, 0, d, fw, FALSE)
-    /\ reqs = <<RidReq(tr, at, l, t)>>
+  \* spellings matter (if at all) where the inbound value sits in the header the options name
+  \E hn \in (IF trust \in CustomTrust /\ at = "custom" THEN Spellings ELSE {"canon"}) :
+  \E sp \in (IF l > 0 /\ ((at = "custom" /\ trust \in CustomTrust) \/ (at = "std" /\ trust = "on")) THEN Spellings ELSE {"canon"}) :
+    /\ cfg = Cfg(tr, trust, lim, "default", 100, 1, 0, d, fw, FALSE, hn)
+    /\ reqs = <<RidReq(tr, at, l, sp, t)>>
 
 \* slice "trace": sampling options x discards x chain depth x histories of 1..MaxReq requests
-TraceReqsWith(sc) == {Req("none", 0, t, p, dp, sc) : t \in BOOLEAN, p \in BOOLEAN, dp \in BOOLEAN}
+TraceReqsWith(sc) == {Req("none", 0, "canon", t, p, dp, sc) : t \in BOOLEAN, p \in BOOLEAN, dp \in BOOLEAN}
 InitTrace ==
   \E tr \in Transports : \E s \in SamplingSpace : \E nd \in 0..MaxDiscards : \E d \in 1..MaxHops : \E n \in 1..MaxReq :
   \E fm \in (IF d = 1 THEN {FALSE} ELSE BOOLEAN) :
   \E r \in [1..n -> TraceReqsWith(IF tr = "http" THEN PlainScript ELSE <<>>)] :
-    /\ cfg = Cfg(tr, "none", 0, s[1], s[2], s[3], nd, d, FALSE, fm)
+    /\ cfg = Cfg(tr, "none", 0, s[1], s[2], s[3], nd, d, FALSE, fm, "canon")
     /\ reqs = r
 
 \* slice "capture": every handler script up to MaxScript operations (HTTP)
 InitCapture ==
   \E d \in 1..(IF MaxHops > 2 THEN 2 ELSE MaxHops) : \E sc \in Scripts(MaxScript) :
-    /\ cfg = Cfg("http", "none", 0, "default", 100, 1, 0, d, FALSE, FALSE)
-    /\ reqs = <<Req("none", 0, FALSE, FALSE, FALSE, sc)>>
+    /\ cfg = Cfg("http", "none", 0, "default", 100, 1, 0, d, FALSE, FALSE, "canon")
+    /\ reqs = <<Req("none", 0, "canon", FALSE, FALSE, FALSE, sc)>>
 
 Idle == /\ q = 0 /\ hop = 0 /\ wire = NoWire
         /\ ctx = [h \in Hops |-> EmptyCtx] /\ scount = [h \in Hops |-> 0]
@@ -150,6 +160,8 @@ Arrive == /\ pc = "idle" /\ q < Len(reqs)
 TrustedInbound ==
   LET th == TrustedHeader(cfg) IN
   IF "rid.trusts_header_when_disabled" \in Deviations /\ th = "none" THEN wire.rid
+  \* the lookup is case-insensitive: the spelling of the configured name and of the sender's header do not matter
+  ELSE IF "rid.custom_header_case_sensitive" \in Deviations /\ th = "custom" /\ cfg.hname # "canon" THEN NoRid
   ELSE IF th = "std" THEN wire.rid ELSE IF th = "custom" THEN wire.ridc ELSE NoRid
 Truncate(v, lim) ==
   LET cut == IF "rid.truncate_off_by_one" \in Deviations THEN lim + 1 ELSE lim IN
